@@ -55,6 +55,12 @@ func (ft *ftr) run() error {
 				ft.paramSlots = append(ft.paramSlots, slot{kind: sScalar, name: name, ty: si.lean, param: i, goTy: t})
 			} else if _, ok := t.Underlying().(*types.Struct); ok {
 				ft.env[p] = ft.structParam(i, name, t, nil)
+			} else if _, ok := t.Underlying().(*types.Slice); ok {
+				// a slice parameter is visible only through len(): parameter <name>_len
+				ln := name + "_len"
+				ft.declare(ln, "Int64")
+				ft.env[p] = value{k: kSlice, e: ref(ln), ty: t}
+				ft.paramSlots = append(ft.paramSlots, slot{kind: sSliceLen, name: ln, ty: "Int64", param: i, goTy: t})
 			} else if _, ok := t.Underlying().(*types.Map); ok {
 				lt, err := mapLeanTy(t)
 				if err != nil {
